@@ -626,6 +626,48 @@ def stage_string_slots(ctx: Ctx):
                 src_syms = '[' + '; '.join(_sym_plain(ch) for ch in cap) + ']'
                 terms.append(f'ps_eqb (slot_escape {src_syms}) [' + '; '.join(real) + ']')
                 meta.append({**rec, 'written': inner})
+    # the same slot inside the literal part of an f-string (curly braces of the capture are text there) and inside a bytes constant (which cannot hold non-ASCII text)
+    for cap in STRING_SLOT_CAPTURES + ['{1: 2}', '{a}', '{}', 'f"{a}"', '"{"', "'é{ü}'", '{é: [ü]}']:
+        try:
+            ast.parse('v = ' + cap)
+        except SyntaxError:
+            continue
+        for q in quotes:
+            for kind, template, nvals in (('fstring', f'g(f{q}x __FST_c {{z}} y{q})', 3), ('fstring-spec', f'g(f{q}{{z:>__FST_c}}{q})', 1), ('bytes', f'g(b{q}x __FST_c y{q})', 0), ('bytes-concat', f'g(b{q}__FST_c{q} b{q}q{q})', 0)):
+                if kind == 'fstring-spec' and ('\n' in cap or '\\' in cap or q[0] in cap or '{' in cap or '}' in cap):
+                    continue        # a format spec has no way to write a literal curly brace
+                root = fst.FST('v = ' + cap + '\n', 'exec')
+                rec = {'capture': cap, 'template': template}
+                try:
+                    root.sub(MAssign(value=M(c=...)), 'v = ' + template)
+                except Exception as e:
+                    ctx.violation(f'string-slot-raise|{kind}|{type(e).__name__}', 'sub() raised on a slot inside a string constant', {**rec, 'error': repr(e)[:200]})
+                    continue
+                ctx.tick(('string-slot', kind, cap, q), 'sub:string-slot:' + kind)
+                after = root.src
+                try:
+                    lit = ast.parse(after).body[0].value.args[0]
+                except Exception as e:
+                    ctx.violation(f'string-slot-unparsable|{kind}', 'the source after filling a slot inside a string constant does not parse', {**rec, 'after': after, 'error': repr(e)[:120]})
+                    continue
+                if kind.startswith('bytes'):
+                    want = b'x ' + cap.encode() + b' y' if kind == 'bytes' else cap.encode() + b'q'
+                    ok = isinstance(lit, ast.Constant) and lit.value == want
+                    got = getattr(lit, 'value', None)
+                elif kind == 'fstring':
+                    ok = isinstance(lit, ast.JoinedStr) and len(lit.values) == 3 and isinstance(lit.values[0], ast.Constant) and lit.values[0].value == 'x ' + cap + ' ' and \
+                        isinstance(lit.values[1], ast.FormattedValue) and isinstance(lit.values[2], ast.Constant)
+                    got = ast.dump(lit)[:200]
+                    want = 'x ' + cap + ' '
+                else:
+                    fv = lit.values[0] if isinstance(lit, ast.JoinedStr) and len(lit.values) == 1 else None
+                    spec = fv.format_spec if isinstance(fv, ast.FormattedValue) else None
+                    ok = spec is not None and len(spec.values) == 1 and isinstance(spec.values[0], ast.Constant) and spec.values[0].value == '>' + cap
+                    got = ast.dump(lit)[:200]
+                    want = '>' + cap
+                if not ok:
+                    ctx.violation(f'sub-struct|string-slot-source|{kind}', 'the literal written by sub() does not read back as the template with the source of the capture as text in the slot',
+                                  {**rec, 'after': after, 'reads_back_as': repr(got), 'expected_text': repr(want)})
     failed = coq_eval_bools('C18_slotesc', EHDR, terms, shard=60)
     ctx.correspondence('models/SlotEscape.v slot_escape == the text real sub() writes for a slot inside a string constant (captures with quotes, backslashes, raw control and non-printable characters; four quote styles)',
                        len(terms), [meta[i] for i in failed])
